@@ -279,7 +279,9 @@ fn main() {
     );
     let exe = args.driver_exe("drv_route");
     let rt = tokio::runtime::Builder::new_current_thread().enable_all().build().unwrap();
-    let mut rng = Rng::new(args.seed);
+    // `Rng::new(s)` and `Rng::new(s + 1)` are the same stream shifted by one draw; fork once so
+    // that consecutive seeds give unrelated cases
+    let mut rng = Rng::new(args.seed).fork();
 
     // ---- cases -------------------------------------------------------------------------
     let mut cases: Vec<Case> = vec![];
@@ -328,7 +330,7 @@ fn main() {
             "all {} statement templates (leading clause MATCH / OPTIONAL MATCH / UNWIND / WITH / CALL / RETURN / CREATE / MERGE / FOREACH) x keyword case {{upper, lower, alternating}} x separator {{space, tab, LF, CRLF, none-next-to-punctuation}}; plus PRNG cases with per-letter case and per-gap separators (not exhaustive)",
             TEMPLATES.len()
         );
-        let n_rand = if args.thorough() { 12_000 } else { 1_200 };
+        let n_rand = if args.thorough() { 12_000 } else { 900 };
         for _ in 0..n_rand {
             let ti = rng.usize(toks.len());
             let (it, nonspace) = items(&toks[ti], CaseStyle::Random, SepStyle::Random, &mut rng);
